@@ -180,8 +180,18 @@ func (e *CloseErr) Error() string {
 }
 func (e *CloseErr) Unwrap() error { return e.Wraps }
 
+// MultiCloseErr is an error list, like go/scanner.ErrorList: a slice type is not comparable
+// (it cannot be a map key, and == on two such interface values panics).
+type MultiCloseErr []error
+
+func (m MultiCloseErr) Error() string   { return fmt.Sprintf("%d injected close errors: %v", len(m), []error(m)) }
+func (m MultiCloseErr) Unwrap() []error { return m }
+
 // closeErrFor varies the shape with the instance id.
 func closeErrFor(id int64) error {
+	if id%5 == 4 {
+		return MultiCloseErr{&CloseErr{ID: id}}
+	}
 	switch id % 4 {
 	case 2:
 		return &CloseErr{ID: id, Wraps: godi.ErrScopeDisposed}
